@@ -12,7 +12,7 @@ PROP = {
 CLAIM = {
     "engine": "mirrorsim",
     "technique": "stateful property-based testing (rapid op lists in testing/synctest bubbles) with an invariant oracle evaluated after every step",
-    "text": "Generated adversarial histories (the harness owns all validator keys) are run against one real tmmirror.Mirror; after every step the committed-header store, the mirror store and both views are checked for immutability of committed hashes, contiguity, monotone positions, voting = committing + 1 and predecessor hash links.",
+    "text": "Generated adversarial histories (the harness owns all validator keys) (incl. hostile answers of the proposed-header fetcher and a lost wrong-predecessor proposal that is fetched before its quorum completes) are run against one real tmmirror.Mirror; after every step the committed-header store, the mirror store and both views are checked for immutability of committed hashes, contiguity, monotone positions, voting = committing + 1 and predecessor hash links.",
     "design_ref": "DESIGN.md section 4 C04, section 3.1",
     "note": "Exploration only; known crash findings (C09-*) are excluded by construction.",
 }
